@@ -678,6 +678,27 @@ def r5(ctx):
     return rule
 
 
+def r6(ctx):
+    """'never neither', seen from the caller of the request: the Service removes its own record of the request (and with it the caller's
+    callback) when the handler reports the one event it will ever report for it; it keeps the request only while further NODES packets are due.
+    These are the re-insertion obligations of C11.R4, re-evaluated here."""
+    import c11
+    rule = Rule("C04.R6", "the Service keeps a request (and its caller waiting) only while more NODES packets of the answer are due", floor=3,
+                engine="A-dom + A-aff (obligations shared with C11.R4)")
+    sub = c11.r4(ctx)
+    sub.finish()
+    rule.functions |= sub.functions
+    keep = ("multi|count-total", "multi|count-max", "multi|reinsert-and-complete")
+    for o in sub.obligations:
+        if o["verdict"] == "discharged" and re.search(r"waiting for more packets|re-inserted request is not also completed", o["site"]):
+            rule.ok("[%s] %s" % (o["rule"], o["site"]), o.get("detail", ""))
+    for v in sub.violations:
+        if v.key in keep or v.key in ("anchor", "floor"):
+            rule.fail("%s|%s" % (v.rule, v.key), "the Service keeps a request in its active_requests although no further packet of its answer is due (the handler has already "
+                      "retired it and will report nothing else): the caller of the request gets no outcome at all. " + v.msg, loc=v.loc, site="[%s] %s" % (v.rule, v.key), path=v.path)
+    return rule
+
+
 def run(ctx):
     G = lambda l, f, *a: guarded("C04." + l, f, ctx, *a)
-    return G("R1", r1) + G("R2", r2) + G("R3", r3) + G("R4", r4) + G("R5", r5)
+    return G("R1", r1) + G("R2", r2) + G("R3", r3) + G("R4", r4) + G("R5", r5) + G("R6", r6)
